@@ -249,7 +249,8 @@ voc_read_header	(SF_PRIVATE *psf)
 		psf_log_printf (psf, " Sound Data : %d\n  sr   : %d => %dHz\n  comp : %d\n",
 								size, rate_byte, psf->sf.samplerate, compression) ;
 
-		if (offset + size - 1 > psf->filelength)
+		/* The size covers the rate and compression bytes just read plus the data ; the terminator block may be missing. */
+		if (offset + size - 2 > psf->filelength)
 		{	psf_log_printf (psf, "Seems to be a truncated file.\n") ;
 			psf_log_printf (psf, "offset: %d    size: %d    sum: %d    filelength: %D\n", offset, size, offset + size, psf->filelength) ;
 			return SFE_VOC_BAD_SECTIONS ;
@@ -261,7 +262,7 @@ voc_read_header	(SF_PRIVATE *psf)
 			} ;
 
 		psf->dataoffset = offset ;
-		psf->dataend	= psf->filelength - 1 ;
+		psf->dataend	= offset + size - 2 ;
 
 		psf->sf.channels = 1 ;
 		psf->bytewidth = 1 ;
@@ -312,7 +313,7 @@ voc_read_header	(SF_PRIVATE *psf)
 								"  comp   : %d\n", size, rate_byte, compression) ;
 
 
-		if (offset + size - 1 > psf->filelength)
+		if (offset + size - 2 > psf->filelength)
 		{	psf_log_printf (psf, "Seems to be a truncated file.\n") ;
 			psf_log_printf (psf, "offset: %d    size: %d    sum: %d    filelength: %D\n", offset, size, offset + size, psf->filelength) ;
 			return SFE_VOC_BAD_SECTIONS ;
@@ -324,7 +325,7 @@ voc_read_header	(SF_PRIVATE *psf)
 			} ;
 
 		psf->dataoffset = offset ;
-		psf->dataend = psf->filelength - 1 ;
+		psf->dataend = offset + size - 2 ;
 
 		psf->bytewidth = 1 ;
 
@@ -456,8 +457,8 @@ voc_write_header (SF_PRIVATE *psf, int calc_length)
 	{	/* samplerate = 1000000 / (256 - rate_const) ; */
 		rate_const = 256 - 1000000 / psf->sf.samplerate ;
 
-		/* First type marker, length, rate_const and compression */
-		psf_binheader_writef (psf, "e1311", BHW1 (VOC_SOUND_DATA), BHW3 ((int) (psf->datalength + 1)), BHW1 (rate_const), BHW1 (0)) ;
+		/* First type marker, length (rate and compression bytes plus the data), rate_const and compression */
+		psf_binheader_writef (psf, "e1311", BHW1 (VOC_SOUND_DATA), BHW3 ((int) (psf->datalength + 2)), BHW1 (rate_const), BHW1 (0)) ;
 		}
 	else if (subformat == SF_FORMAT_PCM_U8 && psf->sf.channels == 2)
 	{	/* sample_rate = 128000000 / (65536 - rate_short) ; */
@@ -474,7 +475,7 @@ voc_write_header (SF_PRIVATE *psf, int calc_length)
 		/*	Now write the VOC_SOUND_DATA section
 		** 		marker, length, rate_const and compression
 		*/
-		psf_binheader_writef (psf, "e1311", BHW1 (VOC_SOUND_DATA), BHW3 ((int) (psf->datalength + 1)), BHW1 (rate_const), BHW1 (0)) ;
+		psf_binheader_writef (psf, "e1311", BHW1 (VOC_SOUND_DATA), BHW3 ((int) (psf->datalength + 2)), BHW1 (rate_const), BHW1 (0)) ;
 		}
 	else
 	{	int length ;
@@ -536,7 +537,8 @@ voc_close	(SF_PRIVATE *psf)
 		unsigned char byte = VOC_TERMINATOR ;
 
 
-		psf_fseek (psf, 0, SEEK_END) ;
+		/* The terminator below is not audio data : remember where the audio ends. */
+		psf->dataend = psf_fseek (psf, 0, SEEK_END) ;
 
 		/* Write terminator */
 		psf_fwrite (&byte, 1, 1, psf) ;
